@@ -273,6 +273,14 @@ Theorem C20_tuple_cat_nested_refuted : exists n, cat_single_nested_arity_m n <> 
 Proof. exact cat_single_nested_refuted. Qed.
 Print Assumptions C20_tuple_cat_nested_refuted.
 
+(* known findings KF-C20-tuple-structured-binding / KF-C20-get-by-type: missing pieces of the tuple protocol *)
+Theorem C20_tuple_structured_binding_refuted : tuple_structured_binding_m <> tuple_structured_binding_spec.
+Proof. exact tuple_structured_binding_refuted. Qed.
+Print Assumptions C20_tuple_structured_binding_refuted.
+Theorem C20_get_by_type_refuted : exists p, get_by_type_m p <> get_by_type_spec p.
+Proof. exact get_by_type_refuted. Qed.
+Print Assumptions C20_get_by_type_refuted.
+
 (* non-vacuity: the hypotheses are satisfiable and the objects are not degenerate *)
 Example C20_nonvacuous :
   (forall a b, Z.ltb a b = true -> Z.ltb b a = false)
